@@ -37,6 +37,8 @@ type RevAPI struct {
 	Note    func(int) `notify:"true"`
 	// Stubborn's client-side handler does not look at its context: it outlives the connection it was called on
 	Stubborn func(context.Context, int) (int, error)
+	// Big: a reverse call with a large argument (slow to decode on the client)
+	Big func(context.Context, int, string) (int, error)
 	// Ticks: a reverse subscription (the client-side handler returns a channel)
 	Ticks func(context.Context, int) (<-chan int, error)
 	// IdentRetry: a retry-tagged reverse method without a context parameter
@@ -150,6 +152,12 @@ func (r *RevH) Stubborn(ctx context.Context, arg int) (int, error) {
 	case <-r.C.ch(arg):
 	case <-time.After(8 * time.Second):
 	}
+	return ident(r.ID, arg), nil
+}
+
+// Big ignores its payload and answers like Ident.
+func (r *RevH) Big(ctx context.Context, arg int, payload string) (int, error) {
+	r.C.enter(arg)
 	return ident(r.ID, arg), nil
 }
 
@@ -341,6 +349,8 @@ func (s *RS) Run(ctx context.Context, sp Spec) (Out, error) {
 			return rc.Nest
 		case "Stubborn":
 			return rc.Stubborn
+		case "Big":
+			return func(ctx context.Context, a int) (int, error) { return rc.Big(ctx, a, strings.Repeat("b", 40<<20)) }
 		case "Ticks":
 			// subscribe and return the first value
 			return func(ctx context.Context, a int) (int, error) {
@@ -946,6 +956,10 @@ func Run(d *fw.Driver, res *fw.Result, seed int64, thorough bool) error {
 	}
 	base += 1000
 	if err := NoHandlerClient(res, seed, base); err != nil {
+		return err
+	}
+	base += 1000
+	if err := StaleAnswerQueued(res, seed, base); err != nil {
 		return err
 	}
 	if err := FormatterOrder(res); err != nil {
